@@ -23,12 +23,23 @@ RULE = ("case = a history: prelude (2-3 matrices built by add_frame and/or by th
         "prelude with a reader's matrix; thorough: on every prelude) over the alphabet plus lookups of identifiers that share the PGN of a frame of "
         "the matrix but not its source address / priority / destination, plus 1500 (20000) random or focused bodies in which the markings, header id, length and "
         "transmitters of frame objects are edited in the middle of the history (such edits address neither identifier nor name, the model does not "
-        "see them: lookups must answer as if they were not there). Non-trivial = distinct history whose body contains an edit and a lookup follows it.")
+        "see them: lookups must answer as if they were not there). "
+        "Untouched matrices: the same preludes filled reader style (db.frames.append only, DBC text whose nodes are all declared, so that no call of "
+        "the matrix API precedes the first lookup), every body of length 1 and 500 (6600) random / focused bodies. "
+        "Names: rename_frame with a pattern ('TM*', '*_Ctrl', '*': the text at that end of the name replaced once) and with a Frame object that lends its "
+        "name, on matrices whose frame names hold the pattern's text at the start, at the end, in the middle, several times or not at all: a fixed sweep "
+        "(every prefix and suffix of every name of the matrix as pattern, ~340 histories; thorough: for three texts), 1500 (20000) random histories about "
+        "names (renamings of the three kinds between lookups by name / identifier, deletions by name, copies, merges; the closing sweep looks up every name "
+        "a frame can carry and the patterns themselves), and 750 (10000) of the random / focused histories above with pattern renamings in between. "
+        "The pattern call is executed once by the real code and spelled out for the model as the exact renamings it stands for. Non-trivial = distinct history whose body contains an edit and a lookup follows it.")
 EXHAUSTIVE = {"quick": False, "thorough": False}
 PARTIAL = ["frame_by_header_id (a plain scan) is exercised on snapshots of a matrix (case 'hdr'), not inside the edit histories",
            "frame objects are compared through harness-assigned handles (object identity)"]
 ASSUMPTIONS = ["edits go through the matrix API or through attributes of a frame object; direct mutation of db.frames by the caller "
-               "is outside the property (only the readers' own db.frames.append is modelled)"]
+               "is outside the property (only the readers' own db.frames.append is modelled)",
+               "rename_frame with a '*' pattern: the generator (pattern_target) says what the pattern stands for - the text at the start (end) of the "
+               "name replaced by the new text once, other frames untouched - as exact renamings of every name a frame of the history can carry; a matrix "
+               "that holds the same frame object twice only gets patterns whose second application finds nothing to do (the code visits the object twice)"]
 TRUSTED = ["copy.deepcopy is modelled as a structural copy that preserves sharing inside the copied matrix"]
 CORRESPONDENCE = "histories of CanMatrix operations == CanVerif.step (Model/Lookup.lean)"
 
@@ -111,8 +122,17 @@ def side_of(op):
     return op[-1] if isinstance(op[-1], dict) else {}
 
 
-def prelude(variant):
-    """returns ops, nmats, nobjs, frames per matrix"""
+def prelude(variant, reader_style=False):
+    """returns ops, nmats, nobjs, frames per matrix; reader_style: the same matrices filled the way a file reader (or a caller who hands
+    the frame list to the constructor) fills them - db.frames.append only, and a DBC text whose nodes are all declared, so that no call
+    of the matrix API has touched these matrices before the first lookup"""
+    ops, nmats, nobjs = prelude_api(variant)
+    if reader_style:
+        ops = [["appendFrame"] + o[1:] if o[0] == "addFrame" else o + [{"nodes": True}] if o[0] == "loadMatrix" else o for o in ops]
+    return ops, nmats, nobjs
+
+
+def prelude_api(variant):
     ops = [["newMatrix"], ["newMatrix"],
            ["newFrame", "A", 0x10, False], ["newFrame", "B", 0x18FEF100, True], ["newFrame", "C", 0x10, False],
            ["newFrame", "A", 0x20, False]]
@@ -161,12 +181,12 @@ def alphabet(nmats, nobjs):
     return ops
 
 
-def closing(nmats):
+def closing(nmats, names=()):
     ops = []
     for m in range(nmats):
         for i, e in IDS:
             ops.append(["byId", m, i, e])
-        for n in NAMES + ["D", "A*", "?", "[AB]"]:         # a name is a name, not a pattern
+        for n in NAMES + ["D", "A*", "?", "[AB]"] + [x for x in names if x not in NAMES and x != "D"]:         # a name is a name, not a pattern
             ops.append(["byName", m, n])
         for p in PGNS:
             ops.append(["byPgn", m, p])
@@ -177,8 +197,8 @@ def count_new_mats(body):
     return sum(1 for o in body if o[0] in ("deepcopy", "loadMatrix"))
 
 
-def mkcase(pre, body, nmats):
-    return {"op": "hist", "c": {"ops": pre + body + closing(nmats + count_new_mats(body)), "body": [len(pre), len(body)]}}
+def mkcase(pre, body, nmats, names=()):
+    return {"op": "hist", "c": {"ops": pre + body + closing(nmats + count_new_mats(body), names), "body": [len(pre), len(body)]}}
 
 
 def random_body(rng, nmats, nobjs, maxlen):
@@ -299,6 +319,295 @@ def intflag_case(rng, marks=False):
     return {"op": "hist", "c": {"ops": ops, "body": body, "intflag": True}}
 
 
+# ---------------------------------------------------------------------------------------------
+# renaming by pattern, renaming by frame object
+# ---------------------------------------------------------------------------------------------
+# rename_frame (and canconvert --renameFrame) takes, besides an exact name, "part of the name with '*' at the beginning or the
+# end" together with the new prefix / suffix, or a Frame object that lends its name.  The Lean model knows exact renamings only;
+# a pattern call travels as
+#   ["renameFrame", m, "TM*", "X", {"pattern": k}]                   the call the real code executes; for the model the renaming of
+#                                                                    a frame called "TM*", which no frame is
+#   ["renameFrame", m, "TM_Status", "X_Status", {"implied": true}]   (k of them) the exact renamings the pattern stands for, one for
+#                                                                    every name a frame of the history can carry at that point; the
+#                                                                    real code is not called again for these
+#   ["renameFrame", m, "TM_Status", "New", {"by": handle}]           rename_frame(<Frame object called TM_Status>, "New")
+# so the model and the independence judge of the specification see what the pattern has to do - the text at that end of the name
+# replaced once, the rest of the name untouched, frames the pattern does not address untouched - and the real matrix, changed
+# by the one pattern call, is judged against it by every later lookup and snapshot.
+
+def pattern_target(pat, new, name):
+    """the name rename_frame(pat, new) has to give a frame called `name`; None when the pattern does not address that name"""
+    if pat == "*":
+        return new + name
+    if pat.endswith("*"):
+        return new + name[len(pat) - 1:] if name.startswith(pat[:-1]) else None
+    if pat.startswith("*"):
+        return name[:len(name) - (len(pat) - 1)] + new if name.endswith(pat[1:]) else None
+    return new if name == pat else None
+
+
+def pattern_idempotent(pat, new):
+    """a frame object that stands twice in the list of a matrix is visited twice by rename_frame: the second visit must find
+    nothing left to do (histories that may hold a frame twice only get such patterns)"""
+    if pat == "*":
+        return False
+    text = pat[:-1] if pat.endswith("*") else pat[1:]
+    if len(new) < len(text):
+        return False
+    return not (new.startswith(text) if pat.endswith("*") else new.endswith(text))
+
+
+class NameSet(object):
+    """every name a frame of the history can carry so far (an upper bound: who carries which name where is the model's business)"""
+
+    def __init__(self, names=()):
+        self.names = []
+        self.add(*names)
+
+    def add(self, *names):
+        for n in names:
+            if n not in self.names:
+                self.names.append(n)
+
+    def note(self, op):
+        if op[0] == "newFrame":
+            self.add(op[1])
+        elif op[0] == "loadMatrix":
+            self.add(*[f[0] for f in op[1]])
+        elif op[0] == "renameFrame":
+            self.add(op[3])
+
+    def addressed(self, pat, new):
+        """(name, new name) for every name the pattern changes, ordered so that no new name is the old name of a later pair:
+        carried out one after the other the exact renamings do what the pattern does at once"""
+        pairs = {}
+        for n in self.names:
+            t = pattern_target(pat, new, n)
+            if t is not None and t != n:
+                pairs[n] = t
+        out, done = [], set()
+
+        def emit(n, depth=0):
+            if n in done or depth > len(pairs):
+                return
+            done.add(n)
+            if pairs[n] in pairs:
+                emit(pairs[n], depth + 1)      # whoever is called like my new name goes first
+            out.append((n, pairs[n]))
+        for n in list(pairs):
+            emit(n)
+        return out
+
+    def pattern(self, m, pat, new):
+        """the ops of one rename_frame(pat, new) on matrix m"""
+        pairs = self.addressed(pat, new)
+        ops = [["renameFrame", m, pat, new, {"pattern": len(pairs)}]]
+        ops += [["renameFrame", m, a, b, {"implied": True}] for a, b in pairs]
+        self.add(*[b for _, b in pairs])
+        return ops
+
+
+NEW_TEXTS = ["X", "N_", "Q2", "", "ZZ_"]
+
+
+def pick_pattern(rng, ns, text=None, idempotent=False):
+    """a pattern and the new text for it, made from the names of the history (a piece from the start or the end of one of them),
+    None when nothing suitable came up"""
+    for _ in range(12):
+        base = rng.choice(ns.names)
+        k = rng.random()
+        if k < 0.08 and not idempotent:
+            pat, piece = "*", ""
+        elif k < 0.7:
+            piece = text if text and rng.random() < 0.45 and base.startswith(text) else base[:rng.randint(1, len(base))]
+            pat = piece + "*"
+        else:
+            piece = text if text and rng.random() < 0.45 and base.endswith(text) else base[len(base) - rng.randint(1, len(base)):]
+            pat = "*" + piece
+        new = rng.choice(NEW_TEXTS + [piece + piece, "B" + piece + "B", piece[::-1], (text or "K")])
+        if pat == "*" and not new:
+            continue
+        if idempotent and not pattern_idempotent(pat, new):
+            continue
+        if any(pattern_target(pat, new, n) == "" for n in ns.names):       # a frame keeps a name
+            continue
+        if any(len(pattern_target(pat, new, n) or "") > 28 for n in ns.names):
+            continue
+        return pat, new
+    return None
+
+
+def with_pattern_renames(rng, pre, body, p=0.12):
+    """the same body with pattern renamings put in between (these histories may hold a frame object twice in one matrix)"""
+    ns = NameSet(NAMES)
+    for o in pre:
+        ns.note(o)
+    out = []
+    nm = sum(1 for o in pre if o[0] in ("newMatrix", "loadMatrix"))
+    for o in body:
+        if rng.random() < p:
+            pn = pick_pattern(rng, ns, idempotent=True)
+            if pn:
+                out += ns.pattern(rng.randrange(nm), pn[0], pn[1])
+        ns.note(o)
+        out.append(o)
+        if o[0] in ("deepcopy", "loadMatrix"):
+            nm += 1
+    return out, ns
+
+
+NIDS = [(0x10, False), (0x20, False), (0x30, False), (0x18FEF100, True), (0x0CFEF102, True), (0x18EA2100, True), (0x31, True), (0x40, False),
+        (0x41, False), (0x123, False), (0x124, True)]
+
+
+def name_pool(t):
+    """names around a text t: t at the start, at the end, in the middle, more than once, alone, not at all"""
+    return [t + "_Status", t + "_A" + t + "_Ctrl", t + t, "Other_" + t, t, "Z" + t + "Z" + t, t + "_" + t + "_" + t, t + "x" + t + "_Ctrl", "B", "Speed",
+            "Speed_" + t + "_" + t]
+
+
+def names_prelude(rng, t, fixed=False):
+    """two matrices built through the API (some frame objects in both), sometimes a third one from the DBC reader; frame names around
+    the text t; frame objects left over (added later) and frame objects that only lend their name to rename_frame(<Frame>, new)"""
+    pool = name_pool(t)
+    nf = 6 if fixed else rng.randint(4, 7)
+    names = pool[:nf] if fixed else [rng.choice(pool) for _ in range(nf)]
+    ids = list(NIDS) if fixed else rng.sample(NIDS, len(NIDS))
+    ops = [["newMatrix"], ["newMatrix"]]
+    for h in range(nf):
+        ops.append(["newFrame", names[h], ids[h][0], ids[h][1]])
+    keys = []
+    for j in range(2):
+        n = pool[j + 1] if fixed else rng.choice(pool)
+        ops.append(["newFrame", n, ids[nf + j][0], ids[nf + j][1]])
+        keys.append((nf + j, n))
+    nobjs = nf + 2
+    present = set()
+    spare = []
+    for h in range(nf):
+        k = (h % 3) / 3.0 + 0.1 if fixed else rng.random()
+        if k < 0.4:
+            where = [0]
+        elif k < 0.6:
+            where = [1]
+        elif k < 0.88:
+            where = [0, 1]
+        else:
+            where = []
+            spare.append(h)
+        for m in where:
+            ops.append(["addFrame", m, h])
+            present.add((m, h))
+    nmats = 2
+    if not fixed and rng.random() < 0.4:
+        fs = [[rng.choice(pool), ids[nobjs + j][0], ids[nobjs + j][1]] for j in range(2)]
+        ops.append(["loadMatrix", fs])
+        for j in range(2):
+            present.add((2, nobjs + j))
+        nobjs += 2
+        nmats = 3
+    for m in range(nmats):
+        ops.append(["byId", m, ids[0][0], ids[0][1]])
+        ops.append(["byName", m, names[0]])
+    return ops, nmats, nobjs, {"text": t, "pool": pool, "keys": keys, "spare": spare, "present": present, "ids": ids[:nobjs], "nf": nf}
+
+
+def names_closing(nmats, ns, info, patterns):
+    ops = []
+    for m in range(nmats):
+        for i, e in info["ids"]:
+            ops.append(["byId", m, i, e])
+        for n in ns.names + [x for x in info["pool"] if x not in ns.names] + sorted(patterns):     # a pattern is no name
+            ops.append(["byName", m, n])
+        ops.append(["byPgn", m, 0xFEF1])
+    return ops
+
+
+def names_case(rng, t=None, fixed_body=None):
+    """a history about names: renamings by pattern (prefix, suffix, '*'), by exact name and by frame object, between lookups by name
+    and identifier, deletions by name, copies; no frame object gets into the list of one matrix twice"""
+    t = t or rng.choice(["TM", "A", "AB", "X_", "Msg", "aa"])
+    pre, nmats, nobjs, info = names_prelude(rng, t, fixed=fixed_body is not None)
+    ns = NameSet()
+    for o in pre:
+        ns.note(o)
+    body, patterns = [], set()
+    nm = nmats
+    present = set(info["present"])
+    if fixed_body is not None:
+        for m, pat, new in fixed_body:
+            body += ns.pattern(m, pat, new)
+            patterns.add(pat)
+    for _ in range(0 if fixed_body is not None else rng.randint(2, 9)):
+        k = rng.random()
+        m = rng.randrange(nm)
+        h = rng.randrange(nobjs)
+        if k < 0.34:
+            pn = pick_pattern(rng, ns, t)
+            if pn:
+                body += ns.pattern(m, pn[0], pn[1])
+                patterns.add(pn[0])
+        elif k < 0.42:
+            o = ["renameFrame", m, rng.choice(ns.names), rng.choice(ns.names + info["pool"] + ["New_" + t])]
+            ns.note(o)
+            body.append(o)
+        elif k < 0.47:
+            kh, kn = rng.choice(info["keys"])
+            o = ["renameFrame", m, kn, rng.choice(ns.names + ["New_" + t, t + "9"]), {"by": kh}]
+            ns.note(o)
+            body.append(o)
+        elif k < 0.60:
+            body.append(["byName", m, rng.choice(ns.names)])
+        elif k < 0.70:
+            i, e = rng.choice(info["ids"])
+            body.append(["byId", m, i, e])
+        elif k < 0.76:
+            i, e = rng.choice(info["ids"])
+            body.append(["setId", rng.randrange(info["nf"]), i, e])
+        elif k < 0.80:
+            body.append(["delFrame", m, h])
+        elif k < 0.84:
+            body.append(["delFrameByName", m, rng.choice(ns.names)])
+        elif k < 0.86:
+            body.append(["removeFrame", m, h])
+        elif k < 0.90:
+            free = [(mm, hh) for mm in range(nmats) for hh in info["spare"] if (mm, hh) not in present]
+            if free:
+                mm, hh = rng.choice(free)
+                present.add((mm, hh))
+                body.append(["addFrame", mm, hh])
+        elif k < 0.94 and nm < 5:
+            body.append(["deepcopy", m])
+            nm += 1
+        elif k < 0.98:
+            i, e = rng.choice(info["ids"])
+            body.append(["copyFrame", m, rng.randrange(nm), i, e])
+        else:
+            body.append(["merge", m, rng.randrange(nm)])
+    return {"op": "hist", "c": {"ops": pre + body + names_closing(nm, ns, info, patterns), "body": [len(pre), len(body)]}}
+
+
+def pattern_sweep(t):
+    """every prefix and every suffix of every name of the pool as a pattern (and the bare '*'), with three new texts, on both matrices
+    of the fixed prelude"""
+    pool = name_pool(t)[:8]
+    pats = ["*"]
+    for n in pool:
+        for k in range(1, len(n) + 1):
+            for pat in (n[:k] + "*", "*" + n[len(n) - k:]):
+                if pat not in pats:
+                    pats.append(pat)
+    for pat in pats:
+        for new in ("X", t, ""):
+            if pat == "*" and not new:
+                continue
+            if any(pattern_target(pat, new, n) == "" for n in pool):
+                continue
+            yield [(0, pat, new)]
+            if new == "X":
+                yield [(1, pat, new), (0, pat, "Y_")]
+
+
 def gen(rng, tier, shard, nshards):
     depth = 2 if tier == "quick" else 3
     k = 0
@@ -347,6 +656,32 @@ def gen(rng, tier, shard, nshards):
         yield mkcase(pre, with_side_edits(rng, body, nobjs, 0.25 if mode != "j1939" else 0.1), nmats)
     for _ in range(total // 4 + 1):
         yield intflag_case(rng, marks=True)
+    # matrices no call of the matrix API has touched before the first lookup (filled reader style / from a file whose nodes are all
+    # declared): several of them alive at the same time, every body of length 1, random and focused bodies
+    for variant in (0, 1, 2):
+        pre, nmats, nobjs = prelude(variant, reader_style=True)
+        for o in alphabet(nmats, nobjs):
+            k += 1
+            if k % nshards == shard:
+                yield mkcase(pre, [list(o)], nmats)
+    for _ in range(total // 3):
+        pre, nmats, nobjs = prelude(rng.randrange(3), reader_style=True)
+        body = random_body(rng, nmats, nobjs, 20) if rng.random() < 0.5 else focused_body(rng, nmats, nobjs)
+        yield mkcase(pre, body, nmats)
+    # names: renamings by pattern / by frame object.  A fixed sweep (every prefix and suffix of the names of a matrix as the pattern),
+    # random histories about names, and the random / focused histories from above with pattern renamings in between
+    for t in ("TM",) if tier == "quick" else ("TM", "A", "X_"):
+        for fixed in pattern_sweep(t):
+            k += 1
+            if k % nshards == shard:
+                yield names_case(rng, t, fixed)
+    for _ in range(total):
+        yield names_case(rng)
+    for _ in range(total // 2):
+        pre, nmats, nobjs = prelude(rng.randrange(3))
+        body = random_body(rng, nmats, nobjs, 30 if tier == "quick" else 60) if rng.random() < 0.5 else focused_body(rng, nmats, nobjs)
+        body, ns = with_pattern_renames(rng, pre, body)
+        yield mkcase(pre, body, nmats, ns.names)
 
 
 def marked_alphabet(nmats):
@@ -387,19 +722,22 @@ def neighbours(case, rng, shard, nshards):
     for _ in range(150 // nshards + 1):
         pre, nmats, nobjs = prelude(rng.randrange(3))
         yield mkcase(pre, random_body(rng, nmats, nobjs, 30), nmats)
+    for _ in range(100 // nshards + 1):
+        yield names_case(rng)
 
 
 VFRAMEFORMAT = ["StandardCAN", "ExtendedCAN", "reserved", "J1939PG"] + ["reserved"] * 10 + ["StandardCAN_FD", "ExtendedCAN_FD"]
 
 
-def dbc_for(frames):
-    lines = ['VERSION ""', "", "NS_ :", "", "BS_:", "", "BU_: ", ""]
+def dbc_for(frames, nodes=False):
+    """nodes: every sender and receiver is a declared node (BU_), as in a file written by a tool; otherwise the placeholder Vector__XXX"""
+    lines = ['VERSION ""', "", "NS_ :", "", "BS_:", "", "BU_: E1 E2" if nodes else "BU_: ", ""]
     marked = []
     for fr in frames:
         name, i, ext = fr[:3]
         num = i | (0x80000000 if ext else 0)
-        lines.append("BO_ %d %s: 8 Vector__XXX" % (num, name))
-        lines.append(' SG_ s_%s : 0|8@1+ (1,0) [0|0] "" Vector__XXX' % name)
+        lines.append("BO_ %d %s: 8 %s" % (num, name, "E1" if nodes else "Vector__XXX"))
+        lines.append(' SG_ s_%s : 0|8@1+ (1,0) [0|0] "" %s' % (name, "E2" if nodes else "Vector__XXX"))
         lines.append("")
         m = fr[3] if len(fr) > 3 and isinstance(fr[3], dict) else {}
         if m.get("j1939"):
@@ -469,7 +807,7 @@ class Run(object):
             return {"h": self.reg(fr)}, None
         if k == "loadMatrix":
             with contextlib.redirect_stdout(io.StringIO()):
-                db = canmatrix.formats.loads_flat(dbc_for(op[1]), "dbc")
+                db = canmatrix.formats.loads_flat(dbc_for(op[1], nodes=bool(side_of(op).get("nodes"))), "dbc")
             self.mats.append(db)
             for f in db.frames:
                 self.reg(f)
@@ -506,7 +844,17 @@ class Run(object):
                 self.post = self.snap(op[1])
             return None, pre
         if k == "renameFrame":
-            db.rename_frame(op[2], op[3])
+            how = side_of(op)
+            if how.get("implied"):
+                # one of the exact renamings a pattern stands for, spelled out for the model: the pattern call before it has done this
+                return None, None
+            if "by" in how:
+                key = self.objs[how["by"]]           # rename_frame(<Frame>, new): the frame object only lends its name
+                if key.name != op[2]:
+                    raise AssertionError("harness: key frame %d is called %r, not %r" % (how["by"], key.name, op[2]))
+                db.rename_frame(key, op[3])
+            else:
+                db.rename_frame(op[2], op[3])         # an exact name, or a pattern ("TM*", "*_Ctrl", "*") in the carrier op
             return None, None
         if k == "addEcu":
             db.add_ecu(cm.Ecu("ecu%d" % len(db.ecus)))
@@ -570,7 +918,22 @@ def features(case, impl):
     body = case["c"]["ops"][a:a + n]
     yield "body-len=%s" % (n if n <= 3 else "4-10" if n <= 10 else ">10")
     for o in body:
+        how = side_of(o)
+        if how.get("implied"):
+            continue
         yield "op=" + o[0]
+        if o[0] == "renameFrame":
+            if "pattern" in how:
+                yield "rename=by-pattern:" + ("*" if o[2] == "*" else "prefix" if o[2].endswith("*") else "suffix")
+                yield "pattern-addresses=%s" % (how["pattern"] if how["pattern"] < 3 else "3+") + "-of-the-possible-names"
+                text = o[2].strip("*")
+                at = next(i for i, x in enumerate(body) if x is o)
+                if text and any(x[2].count(text) > 1 for x in body[at + 1:at + 1 + how["pattern"]]):
+                    yield "pattern-text-occurs-again-inside-an-addressed-name"
+                if text and o[3] and (o[3].startswith(text) or o[3].endswith(text)):
+                    yield "pattern-new-text-contains-the-old"
+            else:
+                yield "rename=" + ("by-frame-object" if "by" in how else "by-exact-name")
     yield "raised" if "raised" in impl["outs"] else "no-raise"
     marks = set()
     for o in case["c"]["ops"]:
@@ -604,8 +967,12 @@ def shrink_candidates(case):
     if any(o[0] == "deepcopy" for o in body):
         return
     for i in range(n):
-        nb = body[:i] + body[i + 1:]
-        yield {"op": "hist", "c": dict(case["c"], ops=ops[:a] + nb + ops[a + n:], body=[a, n - 1])}
+        how = side_of(body[i])
+        if how.get("implied"):
+            continue                       # goes with the pattern call it spells out
+        j = i + 1 + how.get("pattern", 0)
+        nb = body[:i] + body[j:]
+        yield {"op": "hist", "c": dict(case["c"], ops=ops[:a] + nb + ops[a + n:], body=[a, len(nb)])}
     tail = ops[a + n:]
     if len(tail) > 1:
         for i in range(len(tail)):
